@@ -154,7 +154,7 @@ def season_exit(repo, rep):
     q = "Sun.get_equinox_solstice"
     site = "Sun." + q
     fn = repo.func("Sun", q)
-    loops = [n for n in ast.walk(fn) if isinstance(n, ast.While)]
+    loops = [n for f_ in with_new_helpers(repo, "Sun", fn) for n in ast.walk(f_) if isinstance(n, ast.While)]
     if len(loops) != 1:
         rep.inconcl("R-EXIT-BOUND", site, "expected one refinement loop, found %d" % len(loops))
         return
@@ -207,7 +207,7 @@ def eot(repo, rep):
     fn = repo.func("Sun", q)
     m = repo.mod("Sun")
     fns = with_new_helpers(repo, "Sun", fn)
-    sites = {"Sun." + k for k, g in m.functions.items() if any(g is f for f in fns)}
+    sites = {"%s.%s" % (mn_, k) for mn_, m_ in repo.modules.items() for k, g in m_.functions.items() if any(g is f for f in fns)}
     evs = [e for e in an.events_for("anglewrap") if e.site.split(".<locals>")[0] in sites]
     for e in evs:
         rep.violation("R-ANGLE-WRAP", e.site, e.key, e.msg, construct="line %d" % e.node.lineno)
@@ -223,7 +223,7 @@ def eot(repo, rep):
         rep.violation("R-WRAP-SELF", e.site.split(".<locals>")[0], e.key, e.msg, construct="line %d" % e.node.lineno)
     if not ws:
         rep.ok("R-WRAP-SELF", "package", "%d reduction idioms, each reducing its own operand" % getattr(an, "wrap_sites", 0))
-    rep.floor("reduction idioms E - 360*round(E/360)", getattr(an, "wrap_sites", 0), 3)
+    rep.floor("reduction idioms E - 360*round(E/360)", getattr(an, "wrap_sites", 0), 1)
     # package-wide: no other site
     for e in an.events_for("anglewrap"):
         if e.site.split(".<locals>")[0] not in sites:
